@@ -256,4 +256,54 @@ theorem step_wf (sp : Spec) (w : World) (ev : Event) :
                     · exact Or.inl (completeTask_wf sp _ _ _)
                     · exact Or.inl rfl
 
+
+/-! ### the `crashed` flag -/
+
+theorem dispatchOne_crashed (sp : Spec) (w : World) (c : Cmd) : (dispatchOne sp w c).crashed = w.crashed := by
+  unfold dispatchOne
+  simp only
+  split
+  · rfl
+  · split
+    · rfl
+    · split
+      · split <;> (try split) <;> rfl
+      · rfl
+
+theorem dispatch_crashed (sp : Spec) (cs : List Cmd) : ∀ w, (dispatch sp w cs).crashed = w.crashed := by
+  unfold dispatch
+  induction cs with
+  | nil => intro w; rfl
+  | cons c rest ih => intro w; simp only [List.foldl_cons]; rw [ih, dispatchOne_crashed]
+
+theorem checkAffected_crashed (sp : Spec) (w : World) (t : Tid) : (checkAffected sp w t).crashed = w.crashed := by
+  unfold checkAffected
+  split
+  · rfl
+  · split
+    · rfl
+    · split <;> rfl
+
+theorem checkAndComplete_crashed (w : World) : (checkAndComplete w).crashed = w.crashed := by
+  unfold checkAndComplete
+  split
+  · rfl
+  · split
+    · rfl
+    · split
+      · rfl
+      · split <;> rfl
+
+theorem completeTask_crashed (sp : Spec) (w : World) (r : TaskRow) (s : St) :
+    (completeTask sp w r s).crashed = w.crashed := by
+  unfold completeTask
+  split
+  · exact checkAffected_crashed sp _ _
+  · simp only
+    rw [checkAffected_crashed]
+    split
+    · rfl
+    · rw [dispatch_crashed]
+      split <;> simp <;> split <;> rfl
+
 end Mistral.Engine
